@@ -63,7 +63,7 @@ def run(ctx):
         if name == "add_tx_to_block":
             ok = W.strip(bn)[0] == "param"
         else:
-            ok = mentions(bn, "get_next_block_height") and not mentions(bn, "get_latest_block_height")
+            ok = mentions_deep(F, bn, "get_next_block_height") and not mentions_deep(F, bn, "get_latest_block_height")
         R.ob(ok, "SIBLING", c.where(), "SIBLING|%s|block_number" % name, "%s builds its EVM at `%s`, not at the next block height (or the requested one)" % (name, show(bn)[:80]),
              sample={"rule": "SIBLING", "site": name, "block_number": show(bn)[:80]})
         # the *block* gas limit (GASLIMIT opcode) is not among the statement's exemptions (only remaining gas is):
